@@ -457,7 +457,7 @@ fn order_of(n: usize, order: u8) -> Vec<usize> {
 /// Building and writing containers is C19's subject. If one of those calls panics, the C15 world
 /// gives the operation up instead of reporting it.
 fn guarded<T>(f: impl FnOnce() -> T) -> Option<T> {
-    std::panic::catch_unwind(std::panic::AssertUnwindSafe(f)).ok()
+    crate::sim::swallow_crate_panic(f)
 }
 
 /// The container a set is built from: from an array, or from a default container that received
